@@ -7,15 +7,27 @@ def build(ctx):
     ctx.builddir = B.fresh_dir("c06")
     d = ctx.builddir + "/asan"
     objs = B.build_lib("asan", d)
-    return {"h_sorter": B.build_harness("asan", d, "h_sorter", ["h_sorter.c"], objs, wraps=["mkstemp"])}
+    exes = {"h_sorter": B.build_harness("asan", d, "h_sorter", ["h_sorter.c"], objs, wraps=["mkstemp"])}
+    # the library as shipped (hook off, MIN_SORTER_MEMORY 10 MiB) for the minimum-clamp cases, and an -O2 build for the > 2 GiB entry
+    d2 = ctx.builddir + "/off"
+    exes["h_sorter.off"] = B.build_harness("off", d2, "h_sorter.off", ["h_sorter.c"], B.build_lib("off", d2), wraps=["mkstemp"])
+    if ctx.tier == "thorough":
+        d3 = ctx.builddir + "/plain"
+        exes["h_sorter.plain"] = B.build_harness("plain", d3, "h_sorter.plain", ["h_sorter.c"], B.build_lib("plain", d3), wraps=["mkstemp"])
+    return exes
 
 
 def run(ctx):
-    exe = build(ctx)["h_sorter"]
+    exes = build(ctx)
+    exe = exes["h_sorter"]
     th = ctx.tier == "thorough"
-    ctx.fan(exe, "c06", 40000 if th else 1000, timeout=40)
+    calls = [((exe, "c06", 40000 if th else 1000), dict(timeout=40, max_workers=13)),
+             ((exes["h_sorter.off"], "c06min", 21 if th else 7), dict(chunk=1, timeout=300, max_workers=3, prefix="off."))]
+    if th:
+        calls.append(((exes["h_sorter.plain"], "c06big", 2), dict(chunk=1, timeout=900, max_workers=1, prefix="plain.")))
+    ctx.fan_parallel(calls)
     s = ctx.stats
-    ctx.assumptions += ["needs the MTBL_VERIF hook (MIN_SORTER_MEMORY 1) so that kilobyte inputs split into many chunks",
+    ctx.assumptions += ["needs the MTBL_VERIF hook (MIN_SORTER_MEMORY 1) so that kilobyte inputs split into many chunks; the c06min cases run the library built WITHOUT the hook: requests below its minimum (read from mtbl-private.h) must behave as the minimum",
                         "spill deadline uses the loosest reading: payload bytes (key+value) buffered since the last observed mkstemp must stay below max_memory; checked after every add when spills are synchronous (no worker threads), "
                         "and as a lower bound on the number of spill files in every mode after all jobs are joined",
                         "merge function = multiset union of unique ids (see C04)"]
@@ -25,5 +37,6 @@ def run(ctx):
         evaluations=s.get("c06.sorts", 0),
         floors={"c06.sorts": 800, "c06.chunks.1": 100, "c06.chunks.2-4": 60, "c06.chunks.5-20": 100, "c06.chunks.>20": 100, "c06.cases_duplicates_across_chunks": 200,
                 "c06.cases_with_empty_key": 100, "c06.empty_input": 5, "c06.pool.8": 50, "c06.pool.0": 50, "c06.out.sorter_write": 120, "c06.out.sorter_write_into_writer_on_the_same_pool": 20, "c06.out.iter_abandoned": 120,
-                "c06.spill_deadline_checks": 100000, "c06.post_iteration_refusal_checks": 700, "c06.order.all-equal-keys": 100, "c06.failing_merge.cases": 10, "c06.failing_merge_pooled.cases": 3, "c06.temp_dir_name_with_percent_signs": 300},
+                "c06.spill_deadline_checks": 100000, "c06.post_iteration_refusal_checks": 700, "c06.order.all-equal-keys": 100, "c06.failing_merge.cases": 10, "c06.failing_merge_pooled.cases": 3, "c06.temp_dir_name_with_percent_signs": 300, "c06.max_memory_request_0": 30,
+                "off.c06min.sorts": 7, "off.c06min.request.0": 1, "off.c06min.request.1048576": 1, **({"plain.c06big.sorts": 2} if th else {})},
         extra={"spills_observed": s.get("c06.spills_observed", 0)})
